@@ -2,6 +2,7 @@ import StepModel.Generated.GenBound
 import StepModel.Generated.RefOutGen
 import StepModel.ExpressHash
 import StepModel.GenFiles
+import StepModel.AlphaOrder
 /-!
 # Determinism of the generators as non-interference  (C12)
 
@@ -134,5 +135,17 @@ def refoutGroups (kk : RefKey) (α : Ambient) (listBase : Nat) (entries : List R
   let walked := (ExpressHash.dictOrder (entries.map fun e => (e.item, e))).map (·.2)
   let filed := walked.zipIdx.map fun (e, i) => (refKeyOf kk α e, (e.supplier, α.addr (listBase + i)))
   (ExpressHash.dictOrder filed).map fun g => (g.2.1, (walked.filter fun e => refKeyOf kk α e == g.1).map (·.printed))
+
+/-! ## exppp: the order of the declarations of one class in a scope -/
+
+/-- `strcmp(a, b) < 0` on identifiers (ASCII) -/
+def nameLt (a b : String) : Bool := decide (a < b)
+
+/-- names of the objects of one class (types, entities, rules, functions, procedures) in the order exppp prints them, given
+    the names in definition order: a DICTdo walk (hash order; payload addresses from the ambient) followed — when
+    `exppp_alphabetize` is on, the regenerated default — by `SCOPEadd_inorder` -/
+def sectionOrder (alphabetize : Bool) (α : Ambient) (base : Nat) (names : List String) : List String :=
+  let walked := dictOrderUnder α base names
+  if alphabetize then AlphaOrder.alphaOrder nameLt walked else walked
 
 end StepModel.GenDeterm
